@@ -370,7 +370,7 @@ def run(tier, replay):
     os.remove(idx_path)
 
     # 5. self-test of the binding (tool error if the machinery does not notice a corruption)
-    selftest(ctx, jb, limit, side[0][2], doc_lines, ser_lines, wd)
+    selftest(ctx, jb, limit, side[0][2], side[0][3]["mismatches"], doc_lines, set(i for i, _ in doc_rej), ser_lines, set(i for i, _ in ser_rej), wd)
 
     os.remove(docs_path)
     os.remove(ser_path)
@@ -388,7 +388,7 @@ def run(tier, replay):
     return ctx.finish()
 
 
-def selftest(ctx, jb, limit, r_num, doc_lines, ser_lines, wd):
+def selftest(ctx, jb, limit, r_num, base_mismatches, doc_lines, doc_bad, ser_lines, ser_bad, wd):
     # (a) vectors: drop one accepted string and change the value of another -> the harness must report both
     prints = [dict(x) for x in r_num.prints]
     acc = [i for i, x in enumerate(prints) if "t" in x and len(x["t"]) >= 2 and x["v"]["t"] == "num"]
@@ -402,13 +402,14 @@ def selftest(ctx, jb, limit, r_num, doc_lines, ser_lines, wd):
     r2.prints = mod
     s = enum_replay(jb, r2, limit)
     hit = set(tuple(m["tokens"]) for m in s["first"])
-    if s["mismatches"] < 2 or tuple(dropped["t"]) not in hit or tuple(changed["t"]) not in hit:
+    seen = tuple(dropped["t"]) in hit and tuple(changed["t"]) in hit
+    if s["mismatches"] < base_mismatches + 2 or (base_mismatches == 0 and not seen):
         raise ToolError("self-test: corrupted vector file was not rejected by the harness")
     # (b) traces: flip `ok` of an accepted document, break one serialiser output -> TLC must reject exactly those
-    docs = [json.loads(l) for l in doc_lines[:400]]
+    docs = [json.loads(l) for i, l in enumerate(doc_lines[:600]) if i not in doc_bad][:400]
     k = next(i for i, d in enumerate(docs) if d["ok"] and len(d["in"]) > 3 and not any(n.get("inf") for n in d["v"]))
     docs[k]["ok"] = False
-    sers = [json.loads(l) for l in ser_lines[:200]]
+    sers = [json.loads(l) for i, l in enumerate(ser_lines[:400]) if i not in ser_bad][:200]
     j = next(i for i, d in enumerate(sers) if 44 in d["out"])
     sers[j]["out"] = [c for c in sers[j]["out"] if c != 44] + [44]
     path = os.path.join(wd, "selftest.ndjson")
